@@ -3,7 +3,7 @@
 The real WorstCaseEvaluator / GradientEvaluator (artap/operators.py) run through
 Algorithm.evaluate over several CONSECUTIVE batches (what the test-suite never does) with
 an arbitrary objective (uninterpreted, Ackermann form), symbolic design vectors and
-symbolic positive tolerances.
+symbolic non-negative tolerances.
 """
 from symx import core, ops, stubs
 from symx.ops import And, Or, Not
@@ -50,7 +50,7 @@ def worst_case(args):
         prob.costs = list(base_costs)
         tols = []
         for i, p in enumerate(prob.parameters):
-            t = ctx.real('tol%d' % i, 0, None, lo_strict=True)
+            t = ctx.real('tol%d' % i, 0, None)          # tolerance 0 included (neighbours coincide with the design)
             p['tol'] = t
             tols.append(t)
         alg = _alg(prob, EvaluatorType.WORST_CASE)
